@@ -189,8 +189,22 @@ def run(chk):
         if op is not None:
             ops.append(op); got.append(g); keep.append(case)
     want = common.driver(ops)
-    for case, w, g in zip(keep, want, got):
+    # where the implementation's stream is not the one with the largest fragments: C06 leaves the fragment size free, so the
+    # stream is compared with the model at the size the implementation uses (encodeMsgN; its theorems hold for every size)
+    other = [(case, op, g) for case, op, w, g in zip(keep, ops, want, got) if w != g]
+    ops2, keep2 = [], []
+    for case, op, g in other:
+        sizes = [len(x.split('.')[2]) // 2 if x.split('.')[2] != '-' else 0 for x in g.split()]
+        n = max(sizes) if sizes else 0
+        eff = case['maxlen'] or int(common.driver(['ping']) and __import__('pynetdicom2').dimsemessages.DEFAULT_MAX_PDU_LENGTH)
+        if n < 1 or n + 6 > eff:
+            chk.broke('correspondence encodeMsg', 'no fragment size fits: largest fragment %d, maximum %d' % (n, eff), case)
+            break
+        f = op.split(' ')
+        ops2.append('fragn %s %s %d %s %s' % (f[1], f[2], n, f[4], f[5])); keep2.append((case, g, n))
+    for (case, g, n), w in zip(keep2, common.driver(ops2)):
+        chk.count('fragment-size-other-than-largest')
         if w != g:
-            chk.broke('correspondence encodeMsg', 'model %s...\nimpl  %s...' % (w[:200], g[:200]), case)
+            chk.broke('correspondence encodeMsg', 'at fragment size %d: model %s...\nimpl  %s...' % (n, w[:200], g[:200]), case)
             break
     chk.lean(['Dicom.Props.C06'])
